@@ -29,7 +29,7 @@ func implTP(a, sec, ra []byte) *Toks {
 
 func init() {
 	props["C11"] = func(c *Ctx) {
-		c.Res.Rule = "NewTunnelPassword: every password length 0..260 x random contents x salts with both high-bit values and lengths 0..3 x secrets (incl. empty) x authenticators (incl. wrong sizes); every produced attribute must satisfy 1+len <= 253 and decrypt back; TunnelPassword on every ciphertext length 0..300 with both salt high bits and adversarial embedded lengths; rfc2868.TunnelPassword_* and microsoft.MSMPPESendKey_* with crypto/rand.Reader scripted so the salt is known. non-trivial = accepted input or a decoder input that passes the length tests"
+		c.Res.Rule = "NewTunnelPassword: every password length 0..260 x random contents x salts with both high-bit values and lengths 0..3 x secrets (incl. empty, 64..66 bytes and up to 465) x salts 8000, 8001, ffff, 7fff x authenticators (incl. wrong sizes); every produced attribute must satisfy 1+len <= 253 and decrypt back; TunnelPassword on every ciphertext length 0..300 with both salt high bits and adversarial embedded lengths; rfc2868.TunnelPassword_* and microsoft.MSMPPESendKey_* with crypto/rand.Reader scripted so the salt is known. non-trivial = accepted input or a decoder input that passes the length tests"
 		r := c.Rng.Fork()
 		reps := c.N(3, 40)
 		for rep := 0; rep < reps; rep++ {
@@ -47,6 +47,12 @@ func init() {
 					sl = 0
 				case 3:
 					rl = r.Pick(0, 15, 17)
+				case 4, 5:
+					// the extreme salts on either side of the high-bit rule
+					copy(salt, [][]byte{{0x80, 0x00}, {0x80, 0x01}, {0xff, 0xff}, {0x7f, 0xff}, {0x00, 0x00}}[r.Intn(5)])
+				case 6, 7:
+					// secrets longer than one MD5 block
+					sl = 64 + r.Intn(3) + r.Intn(2)*r.Intn(400)
 				}
 				sec, ra := r.Bytes(sl), r.Bytes(rl)
 				t := implNTP(pw, salt, sec, ra)
@@ -85,6 +91,12 @@ func init() {
 				sec, ra := r.Bytes(1+r.Intn(8)), r.Bytes(16)
 				if r.Intn(20) == 0 {
 					sec = nil
+				}
+				if r.Intn(8) == 0 {
+					sec = r.Bytes(64 + r.Intn(3) + r.Intn(2)*r.Intn(400))
+				}
+				if n >= 2 && r.Intn(6) == 0 {
+					copy(a, [][]byte{{0x80, 0x00}, {0x80, 0x01}, {0xff, 0xff}, {0x7f, 0xff}}[r.Intn(4)])
 				}
 				if r.Intn(20) == 0 {
 					ra = r.Bytes(r.Pick(0, 15, 17))
